@@ -77,6 +77,33 @@ where
             if back_pt != pm {
                 return Err(format!("{}: decode(encode(P)) = {} != P = {}", fmt_name(fmt), pt_brief(&back_pt), pt_brief(&pm)));
             }
+            // the same round trip without leaving the EncodedPoint value (as `p.into_compressed().into_affine()`):
+            // the verdict must be the one the bytes alone determine
+            for checked in [true, false] {
+                for via_from_affine in [false, true] {
+                    let (b2, res) = G::roundtrip_value(&aff, compressed, checked, via_from_affine)?;
+                    if b2 != want {
+                        return Err(format!("{}: the EncodedPoint value made {} holds {} but the ZCash format gives {}", fmt_name(fmt), if via_from_affine { "by from_affine" } else { "by into_(un)compressed" }, hex(&b2), hex(&want)));
+                    }
+                    let expect_ok = !checked || sub;
+                    match res {
+                        Ok(v) => {
+                            if !expect_ok {
+                                return Err(format!("{}: checked into_affine() on the value returned by the encoder accepts the point {} that is outside the subgroup (the same bytes are rejected when decoded from a byte string)", fmt_name(fmt), pt_brief(&pm)));
+                            }
+                            let vm = aff_m::<G>(&v);
+                            if vm != pm {
+                                return Err(format!("{}: decoding the encoder's own value gives {} instead of {}", fmt_name(fmt), pt_brief(&vm), pt_brief(&pm)));
+                            }
+                        }
+                        Err(e) => {
+                            if expect_ok {
+                                return Err(format!("{}: {} decoding of the encoder's own value of {} fails: {:?}", fmt_name(fmt), if checked { "checked" } else { "unchecked" }, pt_brief(&pm), e));
+                            }
+                        }
+                    }
+                }
+            }
         }
     }
     // EncodedPoint::from_affine is the same encoder
@@ -151,7 +178,7 @@ fn check_enc_with_sizes(c: &EncCase, info: &mut Info) -> Result<(), String> {
 pub fn def() -> PropDef {
     PropDef {
         id: "C05",
-        rule: "points of every class of G1/G2 (identity, subgroup, walks P+[k]G giving tens of thousands of different points incl. x with leading zero bits, full-curve, small order, order l*r, negated, same-y) as affine values and through generated Jacobian representatives; both encodings compared byte-for-byte with the model encoder (lengths included) and decoded back (checked decoder for subgroup points, unchecked for the rest); reverse direction: the C04 byte-string generator, every accepted string must re-encode to itself. Non-trivial = non-identity point (forward) / accepted string (reverse); distinct = distinct cases",
+        rule: "points of every class of G1/G2 (identity, subgroup, walks P+[k]G giving tens of thousands of different points incl. x with leading zero bits, full-curve, small order, order l*r, negated, same-y) as affine values and through generated Jacobian representatives; both encodings compared byte-for-byte with the model encoder (lengths included) and decoded back (checked decoder for subgroup points, unchecked for the rest), from the bytes and directly from the EncodedPoint value the encoder returned (both decoders, both constructors; verdicts as the bytes determine); reverse direction: the C04 byte-string generator, every accepted string must re-encode to itself. Non-trivial = non-identity point (forward) / accepted string (reverse); distinct = distinct cases",
         needs_pairing: false,
         subs: vec![
             Box::new(Sub { name: "encode", rule: "bytes == model ZCash encoding; decode(encode(P)) == P", quick: 7_500, thorough: 80_000, strategy: || boxed(enc_case_strategy()), check: check_enc_with_sizes }),
